@@ -29,7 +29,16 @@ namespace cnl {
                 wide_integer<LhsDigits, LhsNarrowest> const& lhs,
                 wide_integer<RhsDigits, RhsNarrowest> const& rhs) const
         {
-            return Operator()(_impl::to_rep(lhs), _impl::to_rep(rhs));
+            // compare in a type that holds every value of both operands
+            // (comparing the reps directly converts the right operand to the left operand's width)
+            using wider_narrowest = std::conditional_t<(LhsDigits > RhsDigits), LhsNarrowest, RhsNarrowest>;
+            using common = wide_integer<
+                    (LhsDigits > RhsDigits) ? LhsDigits : RhsDigits,
+                    numbers::set_signedness_t<
+                            wider_narrowest,
+                            numbers::signedness_v<LhsNarrowest> || numbers::signedness_v<RhsNarrowest>>>;
+            return Operator()(
+                    _impl::to_rep(static_cast<common>(lhs)), _impl::to_rep(static_cast<common>(rhs)));
         }
     };
 }
